@@ -150,8 +150,23 @@ def _one(args):
         if txt.count(m['old']) < 1:
             return (m['id'], 'skipped', 'anchor text not present')
         ov = tree.with_overlay({m['file']: txt.replace(m['old'], m['new'], 1)})
+    import signal
+
+    def _timeout(signum, frame):
+        raise AnalysisError(prop, 'engine', 'analysis time limit exceeded on this variant (term blow-up); fail closed')
     try:
-        ctx, _ = run_rules(prop, load_prop(prop).RULES, Model(ov), 'thorough')
+        signal.signal(signal.SIGALRM, _timeout)
+        signal.alarm(int(os.environ.get('VERIF_VARIANT_TIME_LIMIT', '180')))
+    except ValueError:
+        pass
+    try:
+        try:
+            ctx, _ = run_rules(prop, load_prop(prop).RULES, Model(ov), 'thorough')
+        finally:
+            try:
+                signal.alarm(0)
+            except ValueError:
+                pass
     except AnalysisError as exc:
         return (m['id'], 'false-alarm' if m.get('silent') else 'analysis-error', str(exc))
     except Exception as exc:  # engine bug on mutated input: fail closed
